@@ -444,6 +444,7 @@ class C13Retry(Monitor):
 
     def on_start(self, env):
         env.attempts = {}
+        env.retry_offer = {}
         env.last_attempt_status = {}
 
     def policy(self, env, task, ctx):
@@ -475,17 +476,28 @@ class C13Retry(Monitor):
             if "items_count" in t and rec is not None and rec.get("status") in (S.RUNNING, S.PAUSING, S.RESUMING):
                 continue  # further items of the same attempt
             if rec is not None and rec.get("status") == S.RETRYING:
-                env.attempts[key] = env.attempts.get(key, 1) + 1
                 count(env, "c13_reoffers")
+                env.retry_offer[key] = n
                 last = env.last_attempt_status.get(key)
                 if cond == "fail" and last not in ABENDED:
                     self.fail(env, "retry-without-condition", "C13 %s re-offered although its latest execution ended %s" % (t["id"], last), task=t["id"])
                 if t.get("delay") != delay:
                     self.fail(env, "retry-delay", "C13 %s re-offered with delay %r, the retry policy says %r" % (t["id"], t.get("delay"), delay), task=t["id"])
-                if env.attempts[key] > n + 1:
-                    self.fail(env, "too-many-attempts", "C13 %s offered for attempt %d of one visit with retry count %d" % (t["id"], env.attempts[key], n), task=t["id"], count=n)
+                if env.attempts.get(key, 1) + 1 > n + 1:
+                    self.fail(env, "too-many-attempts", "C13 %s offered for attempt %d of one visit with retry count %d" % (t["id"], env.attempts.get(key, 1) + 1, n), task=t["id"], count=n)
             else:
-                env.attempts[key] = 1
+                env.retry_offer.pop(key, None)
+
+    def on_started(self, env, act):
+        # attempts are executions: an offer that the provider has not started yet is not one
+        if act.item is not None and act.item != 0:
+            return
+        key = (act.task, act.route)
+        if key in env.retry_offer:
+            env.retry_offer.pop(key)
+            env.attempts[key] = env.attempts.get(key, 1) + 1
+        else:
+            env.attempts[key] = 1
 
     def on_report(self, env, act, status, result):
         if act.task not in env.wf.tasks or self.policy(env, act.task, env.visible_ctx(act)) is None:
